@@ -254,6 +254,11 @@ class _Names(object):
     def label(self):
         # enumeration / bit labels need not be unique across the module
         draw = self.draw
+        if draw(st.integers(0, 11)) == 0:
+            # labels spelled like member names of the output documents or like Python keywords are ordinary labels
+            return draw(st.sampled_from(('oid', 'name', 'class', 'type', 'syntax', 'default', 'status', 'units', 'bits',
+                                         'enumeration', 'constraints', 'range', 'size', 'min', 'max', 'module', 'object',
+                                         'value', 'format', 'basetype', 'description', 'imports', 'meta', 'global', 'lambda')))
         lab = draw(st.sampled_from(_LOW_START)) + draw(ctext(_ALNUM, min_size=0, max_size=5))
         if self.prof['hyphens'] and draw(st.integers(0, 4)) == 0:
             lab += '-' + draw(ctext(_ALNUM, min_size=1, max_size=4))
